@@ -10,6 +10,7 @@ from absint import is_streamlike_ty as absint_is_streamlike
 
 
 _DW = set()
+CHUNKS = ("::chunks", "::chunks_then_tail")     # the second: chunks_exact(n) chained with its remainder (absint): the same leaves, then possibly one empty slice
 
 
 def dir_write_fn(fn):
@@ -102,7 +103,7 @@ def r_budget(ctx):
                 continue
             # a spill attempt: the root is written inside the retry loop, or (a rotated loop whose first attempt precedes it) the path chunks the entries
             in_loop = any(e.kind == "call" and dir_write_fn(e.d["fn"]) and e.loops and fa.root_var(e.d["arg_nodes"][1]) == S for e in p.events) or \
-                any(e.kind == "call" and e.d["fn"].endswith("::chunks") for e in p.events)
+                any(e.kind == "call" and e.d["fn"].endswith(CHUNKS) for e in p.events)
             if p.exit == "tail":
                 # delegates to another budget-checked root writer, handing it the remembered absolute start
                 v = unmut(p.value)
@@ -207,7 +208,7 @@ def r_reseek(ctx):
 
 def r_leafptr(ctx):
     obs = []
-    fs = [f for f in spill_fns(ctx) if any(e.kind == "call" and e.d["fn"].endswith("::chunks") for p in ctx.fa(f).paths for e in p.events)]
+    fs = [f for f in spill_fns(ctx) if any(e.kind == "call" and e.d["fn"].endswith(CHUNKS) for p in ctx.fa(f).paths for e in p.events)]
     if not fs:
         return no_anchor("R-LEAFPTR", "leaf-pointer strategy (root writer that chunks the entries)")
     for f in fs:
@@ -234,7 +235,7 @@ def r_leafptr(ctx):
                 chunk = None
                 dterm = unmut(lw.d["args"][0])
                 for t in subterms(dterm):
-                    if t[0] == "elem" and is_call_to(t[1], lambda s: s.endswith("::chunks")):
+                    if t[0] == "elem" and is_call_to(t[1], lambda s: s.endswith(CHUNKS)):
                         chunk = t
                 ok_chunk = chunk is not None and chunk[1][2][0] == role_param(fa, f, "entries")
                 obs.append(Ob("R-LEAFPTR", fn, "leaf = directory of the current chunk of all entries, same compression", ok_chunk and unmut(lw.d["args"][2]) == role_param(fa, f, "compression"),
@@ -284,7 +285,7 @@ def r_leafptr(ctx):
             if p.exit == "err":
                 continue
             for e in p.events:
-                if not (e.kind == "loop" and e.d["what"] == "enter" and is_call_to(unmut(e.d.get("iter")) if e.d.get("iter") is not None else None, lambda s: s.endswith("::chunks"))):
+                if not (e.kind == "loop" and e.d["what"] == "enter" and is_call_to(unmut(e.d.get("iter")) if e.d.get("iter") is not None else None, lambda s: s.endswith(CHUNKS))):
                     continue
                 lid = e.d["lid"]
                 ex = [x for x in p.events if x.kind == "loop" and x.d["what"] == "exit" and x.d["lid"] == lid and x.seq > e.seq]
@@ -311,7 +312,7 @@ def r_leafptr(ctx):
         chunk_arg_grows = False
         for p in fa.paths:
             for e in p.events:
-                if e.kind == "call" and e.d["fn"].endswith("::chunks") and len(e.d["args"]) == 2:
+                if e.kind == "call" and e.d["fn"].endswith(CHUNKS) and len(e.d["args"]) == 2:
                     a_ = unmut(e.d["args"][1])
                     if a_ in grows:
                         chunk_arg_grows = True
